@@ -334,3 +334,33 @@ def _reads_objective_bounds(cond: Any, MIN: int, MAX: int) -> bool:
                 if mentions_var:
                     seen.add(idx[2].c)
     return MIN in seen and MAX in seen
+
+
+# ------------------------------------------------------------------ R-DOMAIN-SOURCE
+def rule_domain_source(ctx: Ctx, prog: Program) -> None:
+    """Every (re)initialisation of the choice points reads the domains it starts from out of `problem.shr_domains_lst` at that moment
+    (np.array(problem.shr_domains_lst)).  That list is what split() writes into each part and what a user edits between two solvers; a copy
+    kept elsewhere (a cached array on the problem, carried along by deepcopy) makes every part of a split problem search the WHOLE space and
+    a reused problem solve its old domains."""
+    ctx.rule("R-DOMAIN-SOURCE")
+    sites = [(f"{prog.package}.{BT_MOD}", "BacktrackSolver.__init__"), (f"{prog.package}.{BT_MOD}", "reset")]
+    n = 0
+    for mod, name in sites:
+        fn = prog.func(mod, name)
+        ctx.fn(fn.fq)
+        it = Interp(prog, no_inline={"cp_init": None})
+        for r in it.run(fn):
+            if r.outcome != "return":
+                continue
+            for e in calls_named(r.events, "cp_init"):
+                n += 1
+                src = as_view(e.args[-1]) if e.args else None
+                org = it.allocs.get(src.root) if isinstance(src, View) else None
+                okk = bool(org and org[0] == "alloc" and org[1] in ("numpy.array", "numpy.asarray") and org[2] and _root_is(org[2][0], "shr_domains_lst"))
+                if okk:
+                    ctx.ok("R-DOMAIN-SOURCE", f"{name}: cp_init(..., np.array(problem.shr_domains_lst))")
+                else:
+                    ctx.violation("R-DOMAIN-SOURCE", fn.path, name, "cp_init-source", f"{fn.path}:{e.line}",
+                                  f"{name} initialises the choice points from {src!r}, not from a fresh np.array(problem.shr_domains_lst): the domains a solver "
+                                  "starts from must be read from the list that split() and the model API write, at the time the solver (re)starts")
+    ctx.floor("R-DOMAIN-SOURCE:cp_init-sites", n, 2)
